@@ -409,7 +409,10 @@ nni_msgq_resize(nni_msgq *mq, int cap)
 	nni_free(oldq, sizeof(nni_msg *) * oldalloc);
 
 out:
-	// Wake everyone up -- we changed everything.
+	// Wake everyone up -- we changed everything: writers that were
+	// blocked may fit now, and the pollables must follow the new state.
+	nni_msgq_run_putq(mq);
+	nni_msgq_run_notify(mq);
 	nni_mtx_unlock(&mq->mq_lock);
 	return (0);
 }
